@@ -322,6 +322,9 @@ def templates(w):
                 yield 'mask-shift', Op('>>', Op('&', I(m), x), I(s))
                 yield 'mask-shift', Op('>>', Op('&', x, y, I(m)), I(s))
         yield 'mask-shift', Op('>>', Op('&', x, y), I(3))
+        for s in (w, w + 1, irsem.mask(w), 1 << (w - 1)):
+            for m in (0, 1, 0x3f, irsem.mask(w)):
+                yield 'mask-shift-big', Op('>>', Op('&', x, I(m & irsem.mask(w))), I(s & irsem.mask(w)))
     # 8 ==
     for c in few:
         yield 'eq', Op('==', Op('|', x, I(c)), I(0))
